@@ -15,7 +15,7 @@ EXPLANATION = (
 BOUNDS = {"quick": {"S": "all 43 types, every range controller over its full range, every unit member of unit-dependent ranges; enum members and booleans enumerated (concrete)",
                     "F": "every distinct (min,max) of the live metadata, v over the whole range; obligations: pv(min)=0, pv(max)=0x8000, 0<=pv<=0x8000, pv(v)<=pv(v+1)"},
           "thorough": {"S": "as quick", "F": "as quick, both solvers required to answer on every pair"}}
-OUTSIDE = ["MetaModule user-defined controllers (C15)"]
+OUTSIDE = ["MetaModule user-defined controllers mapped onto enum / boolean targets (values: C15)"]
 ASSUMPTIONS = ["integers in the float kernel stay below 2^53 (asserted as a side obligation of every query, not assumed)"]
 
 SETUP = "from rv.modules import MODULE_CLASSES\nfrom rv.controller import Range, CompactRange, NoOffsetRange, WarnOnlyRange\n"
@@ -98,6 +98,34 @@ def s_obligations(tier, rnd):
             obs.append(Ob(f"dep.loaded.{mt}.{n}", build(params, body, setup=SETUP + f"CLS = {cls_expr(mt)}\n"),
                           f"{mt}.{n} after save/load and after clone(), under every unit: the resolved range is the unit's and its end points encode to 0x0000 / 0x8000",
                           group="raw", shape=f"{mt}: every member of {t.ctl_name}", symbolic="the controller value under each unit", timeout=300))
+    # MetaModule user-defined controllers adopt the range of the controller they are mapped to ("for every controller"): the stored
+    # encoding and the pattern-column end points must be those of the ADOPTED range, before and after a load
+    from vf.props import c15
+    p15, l15 = c15.build_mm(0, rnd)
+    tg = [("user_defined_1", (1, 0), 0, 1024), ("user_defined_2", (1, 1), -128, 128), ("user_defined_3", (3, 0), -128, 128), ("user_defined_4", (1, 8), -16384, 16384)]
+    lines = list(l15) + ["mm.user_defined_controllers = 4"] + [f"mm.mappings.values[{i}] = MM.Mapping({m!r})" for i, (n_, m, lo, hi) in enumerate(tg)] + ["mm.update_user_defined_controllers()"]
+    code = "\n".join("    " + l for l in lines)
+    chk = ""
+    for n_, m, lo, hi in tg:
+        raw = f"v_{n_}" if lo >= 0 else f"v_{n_} - ({lo})"
+        chk += f"""
+        raw = {raw}
+        b.set_raw({n_!r}, raw)
+        if b.{n_} != v_{n_} or b.get_raw({n_!r}) != raw or raw < 0:
+            return False
+        c_ = MM.controllers[{n_!r}]
+        t_ = c_.instance_value_type(b)
+        if (t_.min, t_.max) != ({lo}, {hi}) or c_.pattern_value(b, {lo}) != 0 or c_.pattern_value(b, {hi}) != {(hi - lo) if m == (3, 0) else 0x8000}:
+            return False"""
+    body = f"""
+{code}
+    for b in (mm, rt(Synth(mm)).module):{chk}
+    m3 = rt(Synth(mm)).module
+    return all(getattr(m3, n_) == getattr(mm, n_) for n_ in ("user_defined_1", "user_defined_2", "user_defined_3", "user_defined_4"))
+"""
+    obs.append(Ob("raw.userdefined", build(p15 + [R(f"v_{n_}", lo, hi) for n_, m, lo, hi in tg], body, setup=SETUP + c15.SETUP.split("from vf import refformat as RF")[1]),
+                  "MetaModule user-defined controllers mapped onto ranged targets: stored value is v - min (min < 0) or v, never negative, converts back to v, the resolved range is the target's and its end points encode to 0x0000 / 0x8000 (compact target: 0 / max - min) -- on the built module and after save/load",
+                  group="raw", shape="MetaModule n=4: -> Amplifier.volume, Amplifier.balance, MultiSynth.transpose, Amplifier.bipolar_dc_offset", symbolic="one value per user-defined controller over the adopted range", timeout=400))
     # generic: any range that could ever be declared
     for kind, off in (("Range", True), ("CompactRange", True), ("WarnOnlyRange", True), ("NoOffsetRange", False)):
         exp = "(v - mn if mn < 0 else v)" if off else "v"
